@@ -653,7 +653,10 @@ def wire_perturbations(rng, w):
         out.append(('ca-type', {'CA signature type'}, dict(w, ca_kind='ed25519' if w['ca_kind'] == 'rsa' else 'rsa')))
     gex = [k for k in w['kex'] if k in GEX]
     if gex:
-        out.append(('gex-modulus', {'Group exchange (%s) modulus sizes' % k for k in gex}, dict(w, gex_bits=other(GEX_BITS, w['gex_bits']))))
+        # an OpenSSH-style server ignores groups below 2048 bits (it then serves its built-in groups, as a server with another unusable configuration would): only a
+        # change among the usable sizes is a drift of the observable modulus there
+        pool_ = [b for b in GEX_BITS if b >= 2048] if w.get('gex_style') == 'openssh_fallback' else GEX_BITS
+        out.append(('gex-modulus', {'Group exchange (%s) modulus sizes' % k for k in gex}, dict(w, gex_bits=other(pool_, w['gex_bits']))))
     return out
 
 
